@@ -167,6 +167,7 @@ def run_case(prog, hist, ref, collect_all=False):
     if second != out["ref_before"]:
         viol.append(["bytes:repeat-differs", f"the same request built twice in a row: {out['ref_before']} then {second}", -1])
 
+    del lf.DICT_MUTATIONS[:]
     for step, o in enumerate(hist):
         before = snapshot(env)
         mb = {k: m.SerializeToString(deterministic=True) for k, m in models.items()}
@@ -244,6 +245,9 @@ def run_case(prog, hist, ref, collect_all=False):
                 raise ValueError(kind)
         for f, i, b, a in diff(before, snapshot(env)):
             viol.append([f"{f}:changed-after-{tag}", f"Var #{i}: {f} was {b}, is {a} after step {step} ({tag})", step])
+        if lf.DICT_MUTATIONS:
+            viol.append([f"request:dict-changed-after-{tag}", f"build changed the caller's dictionaries at step {step}: {lf.DICT_MUTATIONS[0][:300]}", step])
+            del lf.DICT_MUTATIONS[:]
         for k, m in models.items():
             if k in mb and m.SerializeToString(deterministic=True) != mb[k]:
                 viol.append([f"inline:model-mutated-by-{tag}", f"the ModelProto passed to inline (model {k}) changed during step {step} ({tag})", step])
